@@ -390,4 +390,73 @@ theorem all_ops_grow (c : Ctx n) (d : Diag n) :
    fun cfg clean => expandBlockX_pres (prims_grows c d) d cfg clean (Grows.refl d),
    fun rank fuel => expandScc_pres (prims_grows c d) rank fuel d (Grows.refl d)⟩
 
+/-! ### second instance: every node space is closed under percolation -/
+
+/-- every node of the diagram is a percolation fixed point -/
+def PercClosed (c : Ctx n) (d : Diag n) : Prop := ∀ p ∈ d.core.nodes, perc c.N p = p
+
+theorem ensureNode_percClosed (c : Ctx n) (s : SD (Space n)) (m : Space n)
+    (h : ∀ p ∈ s.nodes, perc c.N p = p) : ∀ p ∈ (ensureNode s (perc c.N m)).1.nodes, perc c.N p = p := by
+  unfold ensureNode
+  split
+  · exact h
+  · intro p hp
+    simp only [List.mem_append, List.mem_singleton] at hp
+    rcases hp with hp | rfl
+    · exact h p hp
+    · exact percolate_idem c.N (constOnOf c.N) m
+
+theorem addMotif_percClosed (c : Ctx n) (i : Nat) (s : SD (Space n)) (m : Space n)
+    (h : ∀ p ∈ s.nodes, perc c.N p = p) : ∀ p ∈ (addMotif c.env i s m).nodes, perc c.N p = p := by
+  unfold addMotif
+  exact ensureNode_percClosed c s m h
+
+theorem prims_percClosed (c : Ctx n) : Prims c (PercClosed c) where
+  expand := by
+    intro d i h
+    unfold PercClosed expandNode expandOneLimited
+    simp only
+    split
+    · split
+      · exact h
+      · unfold expandOne
+        split
+        · simp only
+          have : ∀ (ms : List (Space n)) (s : SD (Space n)), (∀ p ∈ s.nodes, perc c.N p = p) →
+              ∀ p ∈ (ms.foldl (addMotif c.env i) s).nodes, perc c.N p = p := by
+            intro ms
+            induction ms with
+            | nil => intro s hs; exact hs
+            | cons m ms ih => intro s hs; exact ih _ (addMotif_percClosed c i s m hs)
+          exact this _ d.core h
+        · exact h
+    · exact h
+  child := by
+    intro d parent m h
+    unfold PercClosed ensureChild
+    have := ensureNode_percClosed c d.core m h
+    cases parent <;> exact this
+  setExp := fun _ _ h => h
+  addEdge := fun _ _ _ _ h => h
+  skipped := fun _ _ h => h
+
+/-- **every node any operation of any strategy creates is closed under percolation** -/
+theorem all_ops_perc_closed (c : Ctx n) (d : Diag n) (h : PercClosed c d) :
+    (∀ op, PercClosed c (runOp c d op)) ∧
+    (∀ i mins, PercClosed c (skipToMinimalWith c d i mins).1) ∧
+    (∀ mins, PercClosed c (skipRemainingWith c d mins).1) ∧
+    (∀ cfg clean, PercClosed c (expandBlockX c d cfg clean).1) ∧
+    (∀ rank fuel, PercClosed c (expandScc rank fuel c d).1) :=
+  ⟨fun op => runOp_pres c _ (prims_percClosed c).expand d op h,
+   fun i mins => skipToMinimalWith_pres (prims_percClosed c) d i mins h,
+   fun mins => skipRemainingWith_pres (prims_percClosed c) d mins h,
+   fun cfg clean => expandBlockX_pres (prims_percClosed c) d cfg clean h,
+   fun rank fuel => expandScc_pres (prims_percClosed c) rank fuel d h⟩
+
+theorem init_percClosed (N : Net n) (L : Nat) : PercClosed (Ctx.mk' N L) (initDiag (Ctx.mk' N L)) := by
+  intro p hp
+  simp only [initDiag, SDm.init, List.mem_singleton] at hp
+  subst hp
+  exact percolate_idem N (constOnOf N) _
+
 end Balm.Props.C04
